@@ -76,7 +76,7 @@ def header_wire_layout(h, hdr):
             h.attr(hdr, "message_id"), h.attr(hdr, "message_length") // 256, h.attr(hdr, "message_length") % 256]
 
 
-@oset("at4.hdr.encode-layout-and-roundtrip", ["C03", "C04"],
+@oset("at4.hdr.encode-layout-and-roundtrip", ["C03", "C04", "C01"],
       [HDR + ":HeaderEncoder.encode", HDR + ":HeaderDecoder.decode", HDR + ":HeaderDecoder.header_length"])
 def hdr_roundtrip(h):
     """Precondition: addresses, packet id and message type 0..255, data length 0..65535."""
@@ -113,7 +113,7 @@ def hdr_roundtrip(h):
     h.cover("header round trip")
 
 
-@oset("at4.hdr.encode-range", ["C03"], [HDR + ":HeaderEncoder.encode"])
+@oset("at4.hdr.encode-range", ["C03", "C01"], [HDR + ":HeaderEncoder.encode"])
 def hdr_encode_range(h):
     """struct.error is allowed on encode only when a field is outside its wire range."""
     f = {n: h.int(n, -70000, 70000) for n in ("to_address", "from_address", "packet_id", "message_id", "message_length")}
@@ -235,7 +235,7 @@ def check_table(h, what, table, enc_map, dec_map):
             h.oblige(tag + f"{cls}.message_id is this id", And(got.ok, h.eq(got.value, mid) if got.ok else False))
 
 
-@oset("at4.registry.registration-table", ["C03", "C17"], [REG + ":INSTANCE"])
+@oset("at4.registry.registration-table", ["C03", "C17", "C19"], [REG + ":INSTANCE"])
 def registry_table(h):
     """Concrete check of the module-level registration (detects a swapped / missing registration): every
     registered id maps to the encoder and decoder class of the module whose MESSAGE_ID is that id, and
